@@ -6,26 +6,6 @@ import PoaVerif.Model.Msgs
 -/
 namespace PoaVerif
 
-inductive Wrapper where
-  | authzExec | groupProposal | govProposal
-  deriving DecidableEq, Repr, Inhabited
-
-structure AnteFacts where
-  /-- message types `nestedMsgs` unwraps -/
-  unwrapped : List Wrapper
-  /-- blocked x/staking kinds (numbering of `Msg.staking`) -/
-  blocked : List Nat
-  /-- decorators let everything through while `height ≤ gate` -/
-  gate : Int
-  deriving Repr, DecidableEq
-
-/-- limiter configuration (simapp/ante.go) -/
-structure LimiterCfg where
-  doGenTx : Bool
-  floor : Int
-  ceil : Int
-  deriving Repr, DecidableEq
-
 namespace Ante
 
 /-- the messages carried by a wrapper message, if the decorators unwrap that wrapper -/
@@ -92,11 +72,11 @@ def stakingDecorator (f : AnteFacts) (height : Int) (ms : List Msg) : Option Err
   else if stakingWalkList f ms then some Err.stakingNotAllowed else none
 
 def withdrawDecorator (f : AnteFacts) (height : Int) (ms : List Msg) : Option Err :=
-  if height ≤ f.gate then none
+  if height ≤ f.withdrawGate then none
   else if withdrawWalkList f ms then some Err.withdrawNotAllowed else none
 
 def commissionDecorator (f : AnteFacts) (c : LimiterCfg) (height : Int) (ms : List Msg) : Option Err :=
-  if !c.doGenTx && height ≤ f.gate then none
+  if !c.doGenTx && height ≤ f.commissionGate then none
   else if commissionWalkList f c ms then some Err.plain else none
 
 /-- the three decorators in the order of simapp/ante.go -/
@@ -110,10 +90,16 @@ def run (f : AnteFacts) (c : LimiterCfg) (height : Int) (ms : List Msg) : Option
 
 end Ante
 
-/-- the facts of the current source tree (regenerated by the extractor into
-    `PoaVerif/Generated/Facts.lean`; this default is only used before the first extraction) -/
-def defaultAnteFacts : AnteFacts := { unwrapped := [.authzExec, .groupProposal, .govProposal], blocked := [0, 1, 2, 3, 4, 5], gate := 1 }
+/-- facts of the tree the model was first written against (tests and examples only; the driver and
+    the theorems use `PoaVerif.Generated`) -/
+def defaultAnteFacts : AnteFacts :=
+  { unwrapped := [.authzExec, .groupProposal, .govProposal], blocked := [0, 1, 2, 3, 4, 5], gate := 1, withdrawGate := 1, commissionGate := 1 }
 
 def simappLimiter : LimiterCfg := { doGenTx := false, floor := 100000000000000000, ceil := 500000000000000000 }
+
+def defaultLimitFacts : LimitFacts :=
+  { mul := 100, pct := 30, ge := true, heightGate := 1, minPower := 1000000, maxInt64 := true, beginGate := 1 }
+
+def defaultEnv : Env := { ante := defaultAnteFacts, limiter := simappLimiter, lim := defaultLimitFacts }
 
 end PoaVerif
